@@ -65,6 +65,8 @@ type streamScenario struct {
 	Recvs    int
 	Cancel   bool
 	Probe    string // "", Header, Trailer, Context, CloseSend
+	// PreCancel: the caller's context has already ended when the interceptor is called
+	PreCancel bool
 }
 
 var errCreate = errors.New("fake: stream creation fails")
@@ -93,6 +95,12 @@ func streamScenarios() []streamScenario {
 		add(true, 1, 0, false, p)
 		add(true, 0, 0, false, p)
 		add(true, 1, 1, true, p)
+	}
+	// the context is already over when the stream object is made: its watcher starts with nothing to wait for
+	for _, x := range []streamScenario{{Sends: 1, Recvs: 1}, {Sends: 0, Recvs: 2}, {Sends: 0, Recvs: 0, Probe: "Header"}, {Sends: 3, Recvs: 0, Probe: "Trailer"}} {
+		x.CreateOK, x.PreCancel = true, true
+		x.Name = fmt.Sprintf("create=true sends=%d recvs=%d pre-cancelled probe=%s", x.Sends, x.Recvs, x.Probe)
+		out = append(out, x)
 	}
 	return out
 }
@@ -149,6 +157,9 @@ func streamBody(sc streamScenario) func(s *vsched.Sched) *vsched.ExecOutcome {
 			}
 			r.fs = &fakeStream{ctx: c}
 			return r.fs, nil
+		}
+		if sc.PreCancel {
+			cancel()
 		}
 		cs, err := GCPStreamClientInterceptor(ctx, desc, nil, "/svc/m", streamer, opt)
 		if err != nil || cs == nil {
